@@ -154,7 +154,7 @@ def step (st : St) (op impl : String) : St × StepOut :=
     let g0 := st.s.app.gen
     let (s', out) := st.s.step (.send lvl (intOf now) (intOf la) size (mtu = "1") (probe = "1") fr sfr) e
     let res := match out.res with
-      | .panic => "PANIC ev=-"
+      | .panic _ => "PANIC ev=-"
       | _ => s!"pn={out.pn} sk={if out.skipped.isEmpty then "-" else fmtPNs out.skipped}"
     -- ghost: packet number and skip as reported by the implementation
     let sp := spaceIdx lvl
@@ -173,14 +173,14 @@ def step (st : St) (op impl : String) : St × StepOut :=
     let fails := if sp = 2 then drawFails g0.next g0.nextToSkip g0.period s' else []
     let tags := [s!"send:{l}"] ++ (if !out.skipped.isEmpty then ["send:skip"] else []) ++
       (if probe = "1" then ["send:pathprobe"] else if mtu = "1" then ["send:mtu"] else if fr.isEmpty && sfr.isEmpty then ["send:nonAE"] else []) ++
-      (if out.res = .panic then ["send:panic"] else [])
+      (if out.res.isPanic then ["send:panic"] else [])
     fin { st with s := s', g := g } res tags fails
   | ["ack", l, now, _delay, _ecn, rs] =>
     let lvl := parseLevel l
     let ranges := ((rs.drop 2).toString.splitOn ";").filterMap parseRange
     let (s', out) := st.s.step (.ack lvl (intOf now) ranges) e
     let res := match out.res with
-      | .panic => s!"PANIC {fmtEvs out.evs}"
+      | .panic _ => s!"PANIC {fmtEvs out.evs}"
       | .err c => s!"{fmtErr c} {fmtEvs out.evs}"
       | .ok => s!"ok f={if out.flag then 1 else 0} {fmtEvs out.evs}"
     let sp := spaceIdx lvl
@@ -202,7 +202,7 @@ def step (st : St) (op impl : String) : St × StepOut :=
           s!"ACK covers skipped packet number {p} ({newer} newer skips since) but result `{resTxt}`")]
       | none => []
       else []
-    let tags := [s!"ack:{l}:{match out.res with | .ok => if out.evs.isEmpty then "nothing" else "ok" | .err c => fmtErr c | .panic => "panic"}"] ++
+    let tags := [s!"ack:{l}:{match out.res with | .ok => if out.evs.isEmpty then "nothing" else "ok" | .err c => fmtErr c | .panic _ => "panic"}"] ++
       (if ranges.length > 1 then ["ack:multi"] else []) ++
       (if out.evs.any (fun x => match x with | .lost _ => true | _ => false) then ["ack:loss"] else []) ++
       (if out.evs.any (fun x => match x with | .ignore _ => true | _ => false) then ["ack:ignore"] else []) ++
@@ -213,7 +213,7 @@ def step (st : St) (op impl : String) : St × StepOut :=
     let (s', out) := st.s.step (.timeout (intOf now)) e
     let sk := if out.skipped.isEmpty then "-" else fmtPNs out.skipped
     let res := match out.res with
-      | .panic => s!"PANIC {fmtEvs out.evs}"
+      | .panic _ => s!"PANIC {fmtEvs out.evs}"
       | .err c => s!"{fmtErr c} {fmtEvs out.evs} sk={sk}"
       | .ok => s!"ok {fmtEvs out.evs} sk={sk}"
     let (g, f1) := st.g.observe (implEvents resTxt) none
@@ -228,14 +228,14 @@ def step (st : St) (op impl : String) : St × StepOut :=
   | ["probe", l] =>
     let (s', out) := st.s.step (.probe (parseLevel l)) e
     let res := match out.res with
-      | .panic => "PANIC ev=-"
+      | .panic _ => "PANIC ev=-"
       | _ => s!"{if out.flag then 1 else 0} {fmtEvs out.evs}"
     let (g, f1) := st.g.observe (implEvents resTxt) none
-    fin { st with s := s', g := g } res [s!"probe:{if out.res = .panic then "panic" else if out.flag then "queued" else "none"}"] f1
+    fin { st with s := s', g := g } res [s!"probe:{if out.res.isPanic then "panic" else if out.flag then "queued" else "none"}"] f1
   | ["drop", l, now] =>
     let lvl := parseLevel l
     let (s', out) := st.s.step (.drop lvl (intOf now)) e
-    let res := match out.res with | .panic => "PANIC ev=-" | _ => "ok"
+    let res := match out.res with | .panic _ => "PANIC ev=-" | _ => "ok"
     let g := st.g
     let g := if resTxt.startsWith "ok" then
         match lvl with
@@ -246,17 +246,17 @@ def step (st : St) (op impl : String) : St × StepOut :=
           { g with pkts := g.pkts.map fun p => if p.space = 2 ∧ p.zeroRTT then { p with maybeGone := true } else p }
         | _ => g
       else g
-    fin { st with s := s', g := g } res [s!"drop:{l}:{if out.res = .panic then "panic" else if out.disc.isEmpty then "empty" else "frames"}"] []
+    fin { st with s := s', g := g } res [s!"drop:{l}:{if out.res.isPanic then "panic" else if out.disc.isEmpty then "empty" else "frames"}"] []
   | ["retry", _now] =>
     let (s', out) := st.s.step .retry e
-    let res := match out.res with | .panic => s!"PANIC {fmtEvs out.evs}" | _ => s!"ok {fmtEvs out.evs}"
+    let res := match out.res with | .panic _ => s!"PANIC {fmtEvs out.evs}" | _ => s!"ok {fmtEvs out.evs}"
     let (g, f1) := st.g.observe (implEvents resTxt) none
     -- everything in the Initial and application-data spaces is resolved now; packet numbers skipped before are forgotten
     let g := { g with pkts := g.pkts.map (fun p => if p.space ≠ 1 then { p with gone := true } else p), skipped := [] }
     fin { st with s := s', g := g } res ["retry"] f1
   | ["migrate", now, _mds] =>
     let (s', out) := st.s.step (.migrate (intOf now)) e
-    let res := match out.res with | .panic => s!"PANIC {fmtEvs out.evs}" | _ => s!"ok {fmtEvs out.evs}"
+    let res := match out.res with | .panic _ => s!"PANIC {fmtEvs out.evs}" | _ => s!"ok {fmtEvs out.evs}"
     let (g, f1) := st.g.observe (implEvents resTxt) none
     let g := { g with pkts := g.pkts.map fun p =>
       if p.space = 2 ∧ p.probe then { p with maybeGone := true } else if p.space = 2 ∧ p.frames.isEmpty then { p with gone := true } else p }
